@@ -19,6 +19,7 @@ func genCloseCase(t *rapid.T) CloseCase {
 		Flood: rapid.IntRange(0, 3).Draw(t, "flood") != 0,
 		Queue: 1 << rapid.IntRange(3, 8).Draw(t, "queue_exp"),
 	}
+	c.LateAccept = rapid.IntRange(0, 3).Draw(t, "late_accept") == 0
 	np := rapid.IntRange(1, 4).Draw(t, "npeers")
 	publishers := 0
 	for i := 0; i < np; i++ {
@@ -121,6 +122,9 @@ func TestC13(t *testing.T) {
 		}
 		if c.Flood {
 			labels = append(labels, "flood")
+		}
+		if st.LateAccepted {
+			labels = append(labels, "connection-accepted-during-shutdown")
 		}
 		seen := map[string]bool{}
 		for _, p := range c.Peers {
